@@ -1038,6 +1038,15 @@ class Node:
                               exc_info=True)
             if not msg.header.is_request:
                 return
+            if (msg.header.command_code not in (
+                    constants.CMD_CAPABILITIES_EXCHANGE,
+                    constants.CMD_DEVICE_WATCHDOG,
+                    constants.CMD_DISCONNECT_PEER) and
+                    conn.state not in PEER_READY_STATES):
+                # an application's answer can no longer be routed over this
+                # connection (it is disconnecting or closing: `NotRoutable`);
+                # the node does not send one in its place either
+                return
             if message_id not in self._origin_waiting_answer:
                 # the failure came after an answer had already gone out
                 # (e.g. a request handler that answers and then raises);
